@@ -44,5 +44,9 @@ def units(tier):
         H("C02", M, "check_exitcode_names", t, ["loky.backend.utils:_format_exitcodes", "loky.backend.utils:_get_exitcode_name"], "exit codes -64..255"),
         H("C02", M, "check_terminate_broken", t, [PE + "terminate_broken", PE + "kill_workers", PE + "join_executor_internals", PE + "shutdown_workers"],
           "0..3 pending futures, 0..3 workers, kill raising ProcessLookupError or not"),
+        H("C02", "lokyverif.harness.c06_killtree", "check_psutil_kill", t, ["loky.backend.utils:_kill_process_tree_with_psutil", "loky.backend.utils:kill_process_tree"],
+          "'all remaining workers are killed and reaped': trees of <=5 processes, one descendant may vanish between listing and killing, root may be gone"),
+        H("C02", "lokyverif.harness.c06_killtree", "check_posix_recursive_kill", t, ["loky.backend.utils:_kill_process_tree_without_psutil"],
+          "same without psutil"),
         H("C02", "lokyverif.harness.c03_steps", "check_submit_step", t, ["loky.process_executor:ProcessPoolExecutor.submit"], "submit on a broken pool raises the stored error object"),
     ]
